@@ -553,3 +553,43 @@ Section Invariant.
     specialize (IH d' Hi H2). destruct (run vnull vadd veq key_eq d' ops) as [xs d'']. exact IH.
   Qed.
 End Invariant.
+
+(* ------------------------------------------------------------------ Eq as written (hashed nested lookup) is key_eq *)
+Lemma list_eqb_ext {A} (f g : A -> A -> bool) : forall l m,
+  (forall x y, In x l -> In y m -> f x y = g x y) -> list_eqb f l m = list_eqb g l m.
+Proof.
+  induction l as [ | x l IH]; destruct m as [ | y m]; intro H; cbn; try reflexivity.
+  rewrite (H x y) by (cbn; auto). rewrite IH by (intros; apply H; cbn; auto). reflexivity.
+Qed.
+
+Lemma afindp_ext {K W} (p q : K -> bool) : forall (e : list (K * W)),
+  (forall k w, In (k, w) e -> p k = q k) -> afindp p e = afindp q e.
+Proof.
+  induction e as [ | [k w] e IH]; intro H; cbn; [reflexivity | ].
+  rewrite (H k w) by (cbn; auto). rewrite IH by (intros; eapply H; cbn; eauto). reflexivity.
+Qed.
+
+Lemma key_eq_hm_upto : forall (H : list token -> N) n a b, ksize a <= n -> wf_key a -> wf_key b ->
+  key_eq_hm (key_hash H) a b = key_eq a b.
+Proof.
+  intros H. induction n as [ | n IH]; intros a b Hs Ha Hb; [pose proof (ksize_pos a); lia | ].
+  destruct a as [ | x | s | l | d | v | s]; destruct b as [ | y | t | m | e | w | t]; try reflexivity.
+  - cbn [key_eq_hm key_eq]. apply list_eqb_ext. intros x y Hx Hy. apply IH.
+    + pose proof (ksize_list l x Hx). lia.
+    + apply (proj1 (wf_list l) Ha x Hx).
+    + apply (proj1 (wf_list m) Hb y Hy).
+  - cbn [key_eq_hm key_eq]. f_equal. apply forallb_ext_in'. intros [k v] Hin. cbn [fst snd].
+    destruct (ksize_dict d k v Hin) as [Hk Hv].
+    destruct (proj1 (proj1 (wf_dict d) Ha) k v Hin) as [Hwk Hwv].
+    unfold afind.
+    rewrite (afindp_ext (fun k' => stream_eqb (key_hash H k) (key_hash H k') && key_eq_hm (key_hash H) k k') (key_eq k) e).
+    + destruct (afindp (key_eq k) e) as [[k' v'] | ] eqn:Ef; [ | reflexivity].
+      apply afindp_some in Ef. destruct Ef as [Hin' _].
+      apply IH; [lia | assumption | ]. apply (proj1 (proj1 (wf_dict e) Hb) k' v' Hin').
+    + intros k' w' Hin'. destruct (proj1 (proj1 (wf_dict e) Hb) k' w' Hin') as [Hwk' _].
+      rewrite (IH k k') by (auto; lia). apply (hm_slot_key_eq H k k'); assumption.
+Qed.
+
+Theorem key_eq_hm_is_key_eq : forall (H : list token -> N) a b, wf_key a -> wf_key b ->
+  key_eq_hm (key_hash H) a b = key_eq a b.
+Proof. intros H a b. apply (key_eq_hm_upto H (ksize a)). lia. Qed.
